@@ -4,6 +4,11 @@
 // a lemma needs a ghost client procedure; never compiled without the verif tag.
 package core
 
+import (
+	"github.com/glebziz/fs_db/internal/model"
+	"github.com/glebziz/fs_db/internal/model/sequence"
+)
+
 //@ func binarySearch
 //@   requires sorted: forall i, j int :: 0 <= i && i < j && j < len(arr) ==> arr[i].v.Seq < arr[j].v.Seq
 //@   requires nonnil: forall i int :: 0 <= i && i < len(arr) ==> arr[i] != nil
@@ -92,3 +97,90 @@ package core
 //@                       m.next == old(m.next) && m.prev == old(m.prev)
 //@   ensures  ghosts: forall m *Node[T] :: m != result ==> m.owner == old(m.owner)
 //@   ensures  lists: forall k *List[T] :: k != l ==> k.elems == old(k.elems) && k.base == old(k.base)
+
+// ---------------------------------------------------------------------------
+// Per-key version list (file.go): the list plus, unless withoutSearch, an array
+// mirroring it for binary search.  b.owner: the file whose arr lives in backing store b.
+
+//@ ghost field (backing).owner *file
+
+//@ pure func fileInv(f *file) bool =
+//@     f != nil && listInv(&f.l) && f.l.root.v.Seq == 0 &&
+//@     (f.withoutSearch || (len(f.arr) == len(f.l.elems) &&
+//@         (backing(f.arr) == nil || backing(f.arr).owner == f) &&
+//@         (forall i int :: 0 <= i && i < len(f.arr) ==> f.arr[i] == f.l.elems[i])))
+
+//@ pure func sortedF(f *file) bool =
+//@     forall i, j int :: 0 <= i && i < j && j < len(f.l.elems) ==> f.l.elems[i].v.Seq < f.l.elems[j].v.Seq
+//@ pure func positiveF(f *file) bool =
+//@     forall i int :: 0 <= i && i < len(f.l.elems) ==> f.l.elems[i].v.Seq > 0
+
+//@ func (*file).Latest
+//@   requires inv:  f != nil ==> fileInv(f)
+//@   ensures  none: (f == nil || len(f.l.elems) == 0) ==> result == zero(model.File)
+//@   ensures  last: f != nil && len(f.l.elems) > 0 ==> result == *f.l.elems[len(f.l.elems)-1].v
+
+// A snapshot lookup returns the newest version strictly before the probe, or the zero value.
+//@ func (*file).LastBefore
+//@   requires inv:    f != nil ==> fileInv(f) && sortedF(f) && !f.withoutSearch
+//@   ensures  none:   (f == nil || forall i int :: 0 <= i && i < len(f.l.elems) ==> f.l.elems[i].v.Seq >= seq) ==> result == zero(model.File)
+//@   ensures  some:   f != nil && (exists i int :: 0 <= i && i < len(f.l.elems) && f.l.elems[i].v.Seq < seq) ==>
+//@                       exists k int :: 0 <= k && k < len(f.l.elems) && result == *f.l.elems[k].v &&
+//@                           f.l.elems[k].v.Seq < seq && (k == len(f.l.elems)-1 || f.l.elems[k+1].v.Seq >= seq)
+
+//@ func (*file).PushBack
+//@   requires inv:    f != nil ==> fileInv(f) && sortedF(f)
+//@   requires free:   n != nil ==> toplevel(n) && n.owner == nil
+//@   requires order:  f != nil && n != nil && len(f.l.elems) > 0 ==> f.l.elems[len(f.l.elems)-1].v.Seq < n.v.Seq
+//@   modifies Node[model.File].next, Node[model.File].prev, Node[model.File].owner, Node[model.File].idx, List[model.File].elems,
+//@            file.arr, mem[*Node[model.File]], backing.owner
+//@   ghost backing(f.arr).owner := ite(f != nil && n != nil && !f.withoutSearch, f, backing(f.arr).owner)
+//@   ensures  inv:    f != nil ==> fileInv(f) && sortedF(f)
+//@   ensures  elems:  f != nil && n != nil ==> f.l.elems == old(f.l.elems) ++ [n]
+//@   ensures  noop:   (f == nil || n == nil) ==> (f != nil ==> f.l.elems == old(f.l.elems)) && memsame(*Node[model.File])
+//@   ensures  nodes:  forall m *Node[model.File] :: m != n && m.owner == old(m.owner) && (f == nil || old(m.owner) != &f.l) && (f == nil || m != &f.l.root) ==>
+//@                       m.next == old(m.next) && m.prev == old(m.prev)
+//@   ensures  ghosts: forall m *Node[model.File] :: m != n ==> m.owner == old(m.owner) && m.idx == old(m.idx)
+//@   ensures  lists:  forall k *List[model.File] :: (f == nil || k != &f.l) ==> k.elems == old(k.elems)
+//@   ensures  files:  forall g *file :: g != f ==> g.arr == old(g.arr)
+//@   ensures  mem:    f != nil ==> memframe(f.arr)
+//@   ensures  owners: forall b *backing :: (f == nil || b != backing(f.arr)) ==> b.owner == old(b.owner)
+
+//@ func (*file).PopBack
+//@   requires inv:    f != nil ==> fileInv(f) && sortedF(f)
+//@   modifies Node[model.File].next, Node[model.File].prev, Node[model.File].owner, List[model.File].elems, file.arr
+//@   ensures  r:      result == ite(f == nil || len(old(f.l.elems)) == 0, nil, old(f.l.elems[len(f.l.elems)-1]))
+//@   ensures  inv:    f != nil ==> fileInv(f) && sortedF(f)
+//@   ensures  elems:  f != nil ==> f.l.elems == ite(len(old(f.l.elems)) > 0, old(f.l.elems)[:len(old(f.l.elems))-1], old(f.l.elems))
+//@   ensures  out:    result != nil ==> result.next == nil && result.prev == nil && result.owner == nil
+//@   ensures  nodes:  forall m *Node[model.File] :: m != result && m.owner == old(m.owner) && (f == nil || old(m.owner) != &f.l) && (f == nil || m != &f.l.root) ==>
+//@                       m.next == old(m.next) && m.prev == old(m.prev)
+//@   ensures  ghosts: forall m *Node[model.File] :: m != result ==> m.owner == old(m.owner)
+//@   ensures  lists:  forall k *List[model.File] :: (f == nil || k != &f.l) ==> k.elems == old(k.elems)
+//@   ensures  files:  forall g *file :: g != f ==> g.arr == old(g.arr)
+
+//@ func (*file).PopFront
+//@   requires inv:    f != nil ==> fileInv(f) && sortedF(f)
+//@   modifies Node[model.File].next, Node[model.File].prev, Node[model.File].owner, List[model.File].elems, List[model.File].base,
+//@            file.arr, mem[*Node[model.File]]
+//@   ensures  r:      result == ite(f == nil || len(old(f.l.elems)) == 0, nil, old(f.l.elems[0]))
+//@   ensures  inv:    f != nil ==> fileInv(f) && sortedF(f)
+//@   ensures  elems:  f != nil ==> f.l.elems == ite(len(old(f.l.elems)) > 0, old(f.l.elems)[1:], old(f.l.elems))
+//@   ensures  out:    result != nil ==> result.next == nil && result.prev == nil && result.owner == nil
+//@   ensures  nodes:  forall m *Node[model.File] :: m != result && m.owner == old(m.owner) && (f == nil || old(m.owner) != &f.l) && (f == nil || m != &f.l.root) ==>
+//@                       m.next == old(m.next) && m.prev == old(m.prev)
+//@   ensures  ghosts: forall m *Node[model.File] :: m != result ==> m.owner == old(m.owner)
+//@   ensures  lists:  forall k *List[model.File] :: (f == nil || k != &f.l) ==> k.elems == old(k.elems) && k.base == old(k.base)
+//@   ensures  files:  forall g *file :: g != f ==> g.arr == old(g.arr)
+//@   ensures  mem:    f != nil ==> memframe(old(f.arr))
+
+// lemmaCollect is the collection loop of the old-version collector on one version
+// list (same shape as usecase/core.DeleteOld's inner loop: range over
+// IterateBeforeSeq, pop the front for every yielded version).
+func lemmaCollect(f *file, horizon sequence.Seq) (removed []model.File) {
+	for v := range f.IterateBeforeSeq(horizon) {
+		removed = append(removed, v)
+		f.PopFront()
+	}
+	return removed
+}
